@@ -118,6 +118,14 @@ package snowflake_proxy
 //@   ensures {at-most-one-handler-per-peer-connection} spawns(handler) <= 1 && (spawns(handler) == 1 ==> !old(closed(dataChan)))
 //@   ensures {handler-only-by-winning-the-claim} spawns(handler) == 1 ==> !old(oncedone(claim)) && oncedone(claim)
 //
+// The OnClose callback of the client's data channel ends the relay whatever was (or was not) transferred: the write end
+// of the pipe the handler's copy loop reads from is closed on every path, so the handler ends and returns its slot.
+//@ func (sf *SnowflakeProxy) makePeerConnectionFromOffer$1$3()
+//@   props C16
+//@   flag nosafety
+//@   at call Close#2 assert {the-pipe-the-handler-reads-from} arg0 == pw
+//@   ensures {the-end-of-the-channel-always-ends-the-relay-pipe} calls(Close) == 2
+//
 // Untrusted SDP (C13): extracting the peer address from ANY SDP text returns an address or nil and cannot panic
 // (safety sweep on: nil candidate, submatch index).
 //@ func remoteIPFromSDP(str string) (ip net.IP)
